@@ -1267,4 +1267,17 @@ def gen_serde_decls(rng, tier):
         d.tags = set(d.tags) | {"serde"}
         d.default_arg = None
         out.append(d)
+    # sanitize-only declarations whose declared default is NOT in sanitized form: the value Default hands out
+    # must be the sanitized one (it is what comes back from its own serialization)
+    extra = [("String", block("sanitize", [[tid("trim")], [tid("lowercase")]]), tx(estr(" Ab@ "))),
+             ("String", block("sanitize", [[tid("with"), EQ, tfn(1, "p", "s")]]), tx(estr("abc"))),
+             ("i32", block("sanitize", [[tid("with"), EQ, tfn(0, "p", "s")]]), tx(lit_int(101))),
+             ("u8", block("sanitize", [[tid("with"), EQ, tfn(0, "p", "s")]]), tx(lit_int(200))),
+             ("f64", block("sanitize", [[tid("with"), EQ, tfn(0, "p", "s")]]), tx(lit("101.5")))]
+    for k_, (ty, san, dflt) in enumerate(extra):
+        blocks = [san, [tid("default"), EQ, dflt], derive_block(["Debug", "Clone", "PartialEq", "Serialize", "Deserialize", "Default", "From"])]
+        d = Decl("zx%d" % k_, ty, attr(blocks), env=[], tags={"guard", "serde", {"String": "str", "f64": "float"}.get(ty, "int")})
+        d.bounds = []
+        d.default_arg = None
+        out.append(d)
     return out
